@@ -39,7 +39,7 @@ NAMECH = "ABCDEFGHIJKLMNOPQRSTUVWXYZ0123456789_-+!#$%&'()@^`{}~abc ."
 
 
 def gen_case(rng):
-    nfiles = rng.choice([0, 1, 1, 2, 3, 4, 6])
+    nfiles = rng.choice([0, 1, 1, 2, 3, 4, 6]) if rng.random() > 0.06 else rng.choice([30, 45, 60])   # long tapes: files well past the 21504th byte
     files = []
     for _ in range(nfiles):
         name = rng.choice(NAMECH[:36]) + "".join(rng.choice(NAMECH) for _ in range(rng.randint(0, 7)))
